@@ -46,11 +46,14 @@ struct Cfg {
     parts: Vec<String>,
     /// The spawning thread also requests names while the others run.
     main_calls: usize,
+    /// Number of files that already exist under the names the counter will reach next
+    /// (a temporary directory that still holds files of an earlier process with the same pid).
+    stale: usize,
 }
 
 impl Cfg {
     fn to_json(&self) -> Value {
-        json!({"calls": self.calls, "parts": self.parts, "main_calls": self.main_calls})
+        json!({"calls": self.calls, "parts": self.parts, "main_calls": self.main_calls, "stale": self.stale})
     }
 
     fn from_json(v: &Value) -> Option<Cfg> {
@@ -58,6 +61,7 @@ impl Cfg {
             calls: v.get("calls")?.as_array()?.iter().map(|x| x.as_u64().unwrap_or(1) as usize).collect(),
             parts: v.get("parts")?.as_array()?.iter().map(|x| x.as_str().unwrap_or("").to_string()).collect(),
             main_calls: v.get("main_calls")?.as_u64()? as usize,
+            stale: v.get("stale").and_then(|x| x.as_u64()).unwrap_or(0) as usize,
         })
     }
 
@@ -73,7 +77,9 @@ impl Cfg {
             calls.push(1 + below(&mut st, 4) as usize);
             parts.push(if same { first.clone() } else { PARTS[below(&mut st, 12) as usize].to_string() });
         }
-        Cfg { calls, parts, main_calls: below(&mut st, 3) as usize }
+        let main_calls = below(&mut st, 3) as usize;
+        let stale = if below(&mut st, 4) == 0 { 1 + below(&mut st, 6) as usize } else { 0 };
+        Cfg { calls, parts, main_calls, stale }
     }
 
     fn simpler(&self) -> Vec<Cfg> {
@@ -82,6 +88,7 @@ impl Cfg {
             for i in 0..self.calls.len() { let mut c = self.clone(); c.calls.remove(i); c.parts.remove(i); out.push(c); }
         }
         if self.main_calls > 0 { let mut c = self.clone(); c.main_calls = 0; out.push(c); }
+        if self.stale > 0 { let mut c = self.clone(); c.stale = 0; out.push(c); if self.stale > 1 { let mut c = self.clone(); c.stale = 1; out.push(c); } }
         for i in 0..self.calls.len() { if self.calls[i] > 1 { let mut c = self.clone(); c.calls[i] = 1; out.push(c); } }
         for i in 0..self.parts.len() { if self.parts[i] != "a" { let mut c = self.clone(); c.parts[i] = "a".to_string(); out.push(c); } }
         out
@@ -100,6 +107,30 @@ fn scenario(cfg: Arc<Cfg>) -> impl Fn() + Send + Sync + 'static {
     move || {
         use shuttle::sync::Mutex;
         let results: Arc<Mutex<Vec<(usize, String)>>> = Arc::new(Mutex::new(Vec::new()));
+        // Stale files: learn where the counter stands from one call per distinct name part, then create files
+        // under the next few names by bumping the trailing decimal number of the name (if it has one).
+        let mut stale_files: Vec<std::path::PathBuf> = Vec::new();
+        if cfg.stale > 0 {
+            let mut distinct: Vec<&String> = Vec::new();
+            for p in cfg.parts.iter() { if !distinct.contains(&p) { distinct.push(p); } }
+            let total_calls: usize = cfg.calls.iter().sum::<usize>() + cfg.main_calls + distinct.len();
+            for part in distinct {
+                let probe = simple_sds::serialize::temp_file_name(part);
+                results.lock().unwrap().push((usize::MAX - 1, probe.to_string_lossy().into_owned()));
+                let text = probe.to_string_lossy().into_owned();
+                let digits = text.chars().rev().take_while(|c| c.is_ascii_digit()).count();
+                if digits == 0 || digits > 18 { continue; }
+                let (head, tail) = text.split_at(text.len() - digits);
+                if let Ok(n) = tail.parse::<u64>() {
+                    // Spread the stale names over the range the coming calls will use.
+                    for j in 0..cfg.stale as u64 {
+                        let k = 1 + (j * (total_calls as u64 + 1)) / (cfg.stale as u64);
+                        let path = std::path::PathBuf::from(format!("{}{}", head, n + k));
+                        if std::fs::write(&path, b"stale").is_ok() { stale_files.push(path); }
+                    }
+                }
+            }
+        }
         let mut handles = Vec::new();
         for t in 0..cfg.calls.len() {
             let cfg = cfg.clone();
@@ -117,10 +148,12 @@ fn scenario(cfg: Arc<Cfg>) -> impl Fn() + Send + Sync + 'static {
             results.lock().unwrap().push((usize::MAX, path.to_string_lossy().into_owned()));
         }
         for h in handles { h.join().unwrap(); }
+        for f in stale_files.iter() { let _ = std::fs::remove_file(f); }
         let results = results.lock().unwrap();
         // Oracle: pairwise distinct, each contains its caller's name part.
         let mut seen: BTreeSet<&str> = BTreeSet::new();
         for (t, name) in results.iter() {
+            if *t == usize::MAX - 1 { if !seen.insert(name.as_str()) { let msg = format!("C20 duplicate: the path {:?} was returned to two calls", name); if let Ok(mut g) = VIOLATED.lock() { *g = Some(msg.clone()); } panic!("{}", msg); } continue; }
             let part = if *t == usize::MAX { "main" } else { cfg.parts[*t].as_str() };
             let file = Path::new(name).file_name().map(|f| f.to_string_lossy().into_owned()).unwrap_or_default();
             if !file.contains(part) {
@@ -251,7 +284,11 @@ fn child_search(args: &Args) -> i32 {
 
 fn spawn_search(cfg: &Cfg, sched_seed: u64, iterations: usize, depth: usize, dir: &Path) -> Result<Value, String> {
     let exe = std::env::current_exe().map_err(|e| e.to_string())?;
+    // The names go to the temporary directory; a memory-backed one keeps the stale-file scenarios cheap.
+    let tmp = if Path::new("/dev/shm").is_dir() { PathBuf::from("/dev/shm").join(format!("sdshuttle-tmp-{}", std::process::id())) } else { dir.join("tmp") };
+    let _ = std::fs::create_dir_all(&tmp);
     let out = std::process::Command::new(exe)
+        .env("TMPDIR", &tmp)
         .arg("search").arg(cfg.to_json().to_string()).arg(sched_seed.to_string()).arg(iterations.to_string()).arg(depth.to_string()).arg(dir)
         .stderr(std::process::Stdio::null()).output().map_err(|e| e.to_string())?;
     let text = String::from_utf8_lossy(&out.stdout);
@@ -262,7 +299,7 @@ fn spawn_search(cfg: &Cfg, sched_seed: u64, iterations: usize, depth: usize, dir
 fn run(args: &Args) -> i32 {
     let thorough = args.tier == "thorough";
     // (configurations, schedules per configuration)
-    let (configs, iters): (u64, usize) = if thorough { (args.count.unwrap_or(100_000), 500) } else { (args.count.unwrap_or(3000), 100) };
+    let (configs, iters): (u64, usize) = if thorough { (args.count.unwrap_or(40_000), 500) } else { (args.count.unwrap_or(3000), 100) };
     println!("sdshuttle: property={} tier={} VERIF_SEED={} configurations={} schedules_each={} jobs={}", PROP, args.tier, args.seed, configs, iters, args.jobs);
     let start = Instant::now();
     let base = scratch_root().join(format!("shuttle-{}", std::process::id()));
@@ -362,6 +399,7 @@ fn run(args: &Args) -> i32 {
     }
     let wall = start.elapsed().as_secs_f64();
     let _ = std::fs::remove_dir_all(&base);
+    let _ = std::fs::remove_dir_all(PathBuf::from("/dev/shm").join(format!("sdshuttle-tmp-{}", std::process::id())));
     let samples: Vec<Value> = (0..3u64).map(|i| json!({"index": i, "scenario": Cfg::generate(args.seed, i).to_json(), "schedules": iters})).collect();
     let evidence = json!({
         "property_id": PROP, "tier": args.tier, "seed": args.seed, "level": "exploration",
